@@ -456,5 +456,8 @@ Fixpoint simp (fuel : nat) (e : expr) : sres :=
       end
   end.
 
-(** generous default fuel used when the model is run against the implementation *)
-Definition simp_default (e : expr) : sres := simp (200 + 20 * size e) e.
+(** generous default fuel used when the model is run against the implementation (the result does not
+    depend on the fuel once it suffices: SimplifyFix.simp_fuel_mono); wide masks expand into long concat
+    chains whose re-association needs thousands of steps *)
+Definition simp_default (e : expr) : sres :=
+  simp (N.to_nat (50000 + 500 * N.of_nat (size e))) e.
